@@ -337,6 +337,8 @@ UPGRADER:
 			return ErrInvalidHTTPStatus
 		case stateStatus:
 			switch c {
+			case '\n':
+				return ErrCRExpected
 			case '\r':
 				if p.status == "" {
 					// the reason phrase may contain blanks, e.g. "Not Found".
